@@ -1,10 +1,168 @@
 import Driver.Util
-open Lean Replicat
+import ReplicatModel.Repo
+open Lean Replicat Replicat.Repo
 namespace Driver
 
-/-- requests `repo.* / trace.* / cache.*` (see DESIGN.md Appendix A) -/
+def nameJson : Repo.Name → Json
+  | .config => Json.arr #[Json.str "config"]
+  | .chunk f c => Json.arr #[Json.str "chunk", jnat f, jnat c]
+  | .snap f sid => Json.arr #[Json.str "snap", jnat f, jnat sid]
+  | .other n => Json.arr #[Json.str "other", jnat n]
+
+def fileJson (f : FileRec) : Json := Json.arr #[jnat f.path, jnat f.ver, natArr f.needs]
+
+def bodyJson (b : Body) : Json :=
+  Json.mkObj [("owner", jnat b.owner), ("ts", jnat b.ts), ("chunks", natArr b.chunks), ("files", Json.arr (b.files.map fileJson).toArray)]
+
+def objJson : Obj → Json
+  | .config => Json.arr #[Json.str "config"]
+  | .chunk f c => Json.arr #[Json.str "chunk", jnat f, jnat c]
+  | .snap f sid b => Json.arr #[Json.str "snap", jnat f, jnat sid, bodyJson b]
+  | .blob n => Json.arr #[Json.str "blob", jnat n]
+
+def parseNats (j : Json) : Except String (List Nat) := do (← j.getArr?).toList.mapM (·.getNat?)
+
+def parseName (j : Json) : Except String Repo.Name := do
+  let a ← j.getArr?
+  match a.toList with
+  | [Json.str "config"] => pure .config
+  | [Json.str "chunk", f, c] => pure (.chunk (← f.getNat?) (← c.getNat?))
+  | [Json.str "snap", f, s] => pure (.snap (← f.getNat?) (← s.getNat?))
+  | [Json.str "other", n] => pure (.other (← n.getNat?))
+  | _ => throw "bad name"
+
+def parseFile (j : Json) : Except String FileRec := do
+  match (← j.getArr?).toList with
+  | [p, v, n] => pure ⟨← p.getNat?, ← v.getNat?, ← parseNats n⟩
+  | _ => throw "bad file"
+
+def parseBody (j : Json) : Except String Body := do
+  pure ⟨← getNat j "owner", ← getNat j "ts", ← getNatList j "chunks", ← (← getArr j "files").toList.mapM parseFile⟩
+
+def parseObj (j : Json) : Except String Obj := do
+  let a ← j.getArr?
+  match a.toList with
+  | [Json.str "config"] => pure .config
+  | [Json.str "chunk", f, c] => pure (.chunk (← f.getNat?) (← c.getNat?))
+  | [Json.str "snap", f, s, b] => pure (.snap (← f.getNat?) (← s.getNat?) (← parseBody b))
+  | [Json.str "blob", n] => pure (.blob (← n.getNat?))
+  | _ => throw "bad obj"
+
+def parseStore (j : Json) : Except String Store := do
+  (← j.getArr?).toList.mapM fun e => do
+    match (← e.getArr?).toList with
+    | [n, o] => pure (← parseName n, ← parseObj o)
+    | _ => throw "bad store entry"
+
+def storeJson (s : Store) : Json := Json.arr (s.map (fun e => Json.arr #[nameJson e.1, objJson e.2])).toArray
+
+def parseUser (j : Json) : Except String User := do
+  match (← j.getArr?).toList with
+  | [k, f] => pure ⟨← k.getNat?, ← f.getNat?⟩
+  | _ => throw "bad user"
+
+/-- a regex is passed as the list of ids it accepts (the harness evaluates the real regex); null = no filter -/
+def parsePred (j : Json) (k : String) : Except String (Nat → Bool) := do
+  match j.getObjVal? k with
+  | .ok (Json.arr a) => do
+    let l ← a.toList.mapM (·.getNat?)
+    pure (fun n => l.contains n)
+  | _ => pure (fun _ => true)
+
+def errJson : Err → Json
+  | .corrupted => Json.str "corrupted"
+  | .notAvailable => Json.str "not_available"
+  | .differentKey => Json.str "different_key"
+  | .missing => Json.str "missing"
+
+def mutJson : Mut → Json
+  | .put n o => Json.arr #[Json.str "put", nameJson n, objJson o]
+  | .del n => Json.arr #[Json.str "del", nameJson n]
+
+def parseMut (j : Json) : Except String Mut := do
+  match (← j.getArr?).toList with
+  | [Json.str "put", n, o] => pure (.put (← parseName n) (← parseObj o))
+  | [Json.str "del", n] => pure (.del (← parseName n))
+  | _ => throw "bad mutation"
+
+def planJson (p : Plan) : Json := Json.arr (p.map (fun st => Json.arr (st.map mutJson).toArray)).toArray
+
+def parseOp (j : Json) : Except String Op := do
+  let kind ← getStr j "kind"
+  let u ← parseUser (← j.getObjVal? "user")
+  match kind with
+  | "snapshot" =>
+    pure (.snapshot u (← getNatList j "stream") (← (← getArr j "files").toList.mapM parseFile) (← getNat j "ts") (← getNat j "sid"))
+  | "delete" => pure (.delete u (← getNatList j "sids"))
+  | "clean" => pure (.clean u)
+  | _ => throw s!"bad op kind {kind}"
+
+def parseCache (j : Json) : Except String (Option Cache) := do
+  match j.getObjVal? "cache" with
+  | .ok Json.null => pure none
+  | .ok c => (parseStore c).map some
+  | .error _ => pure none
+
+def loadedJson (l : Loaded) : Json :=
+  Json.mkObj [("fam", jnat l.fam), ("sid", jnat l.sid), ("chunks", natArr l.chunks),
+              ("data", match l.data with | some b => bodyJson b | none => Json.null)]
+
+/-- requests `repo.*` / `trace.*` / `cache.*` (see DESIGN.md Appendix A) -/
 def handleRepo (op : String) (j : Json) : Except String Json := do
+  let enc ← (getBool j "enc" <|> pure true)
   match op with
+  | "repo.step" =>
+    let s ← parseStore (← j.getObjVal? "store")
+    let o ← parseOp (← j.getObjVal? "cmd")
+    let err : Json := match o with
+      | .snapshot .. => Json.null
+      | .delete u sids => (match deleteSnapshots enc u sids s with | .ok _ => Json.null | .error e => errJson e)
+      | .clean u => (match clean enc u s with | .ok _ => Json.null | .error e => errJson e)
+    let puts : Json := match o with
+      | .snapshot u st fs ts sid => Json.arr ((snapshot u st fs ts sid s).2.map nameJson).toArray
+      | _ => Json.arr #[]
+    pure (Json.mkObj [("store", storeJson (step enc s o)), ("error", err), ("uploaded", puts), ("plan", planJson (planOf enc s o))])
+  | "repo.restore" =>
+    let s ← parseStore (← j.getObjVal? "store")
+    let u ← parseUser (← j.getObjVal? "user")
+    let sre ← parsePred j "sre"
+    let fre ← parsePred j "fre"
+    match restore enc u sre fre s with
+    | .ok fs => pure (Json.mkObj [("files", Json.arr (fs.map fileJson).toArray), ("error", Json.null)])
+    | .error e => pure (Json.mkObj [("error", errJson e)])
+  | "repo.list" =>
+    let s ← parseStore (← j.getObjVal? "store")
+    let u ← parseUser (← j.getObjVal? "user")
+    let sre ← parsePred j "sre"
+    match listSnapshots enc u sre s with
+    | .ok rows => pure (Json.mkObj [("rows", Json.arr (rows.map fun r => Json.arr #[jnat r.sid,
+          (match r.ts with | some t => jnat t | none => Json.null), (match r.files with | some t => jnat t | none => Json.null)]).toArray), ("error", Json.null)])
+    | .error e => pure (Json.mkObj [("error", errJson e)])
+  | "repo.listfiles" =>
+    let s ← parseStore (← j.getObjVal? "store")
+    let u ← parseUser (← j.getObjVal? "user")
+    let sre ← parsePred j "sre"
+    let fre ← parsePred j "fre"
+    match listFiles enc u sre fre s with
+    | .ok rows => pure (Json.mkObj [("rows", Json.arr (rows.map fun r => natArr [r.1, r.2.1, r.2.2]).toArray), ("error", Json.null)])
+    | .error e => pure (Json.mkObj [("error", errJson e)])
+  | "cache.load" =>
+    let s ← parseStore (← j.getObjVal? "store")
+    let u ← parseUser (← j.getObjVal? "user")
+    let sre ← parsePred j "sre"
+    let cache ← parseCache j
+    let res : Json := match loadSnapshotsC cache enc u sre s with
+      | .ok ls => Json.mkObj [("loaded", Json.arr (ls.map loadedJson).toArray), ("error", Json.null)]
+      | .error e => Json.mkObj [("error", errJson e)]
+    let after : Json := match cache with
+      | some c => storeJson (cacheAfterLoad c enc u sre s)
+      | none => Json.null
+    pure (res.setObjVal! "cache_after" after)
+  | "trace.accepts" =>
+    let s ← parseStore (← j.getObjVal? "store")
+    let o ← parseOp (← j.getObjVal? "cmd")
+    let tr ← (← getArr j "trace").toList.mapM parseMut
+    pure (Json.mkObj [("accepts", Json.bool (acceptsPrefix (planOf enc s o) tr)), ("store_after_prefix", storeJson (applyMuts s tr))])
   | _ => throw s!"unknown op {op}"
 
 end Driver
